@@ -179,7 +179,39 @@ class Mitm:
         return W.enc_message(hdr, [], sk={'ke': dst_keys['sk_e' + d], 'ka': dst_keys['sk_a' + d], 'integ': dst_integ, 'iv': b'\x66' * 16, 'inner': inner})
 
 
-def run_attack(actions, leaf, cred_i, cred_r, auth, seed, old_auth):
+def forge_auth_response(mitm, w, request, forge):
+    """IKE_AUTH response of an attacker that completed the Diffie-Hellman exchange with the initiator itself and claims the responder's identity."""
+    view = mitm.view_i
+    k, integ = mitm.keys(view, kdf_ref.dh_shared(19, mitm.XA2, view['kei']))
+    m = W.dec_message(request, {'ke': k['sk_ei'], 'ka': k['sk_ai'], 'integ': integ})
+    rq = m['inner']
+    ident = w.conf['A']['A-B']['peer_auth']['id'].encode()
+    id_type = 3 if b'@' in ident else 2
+    prf_id = next(t['id'] for t in view['suite']['transforms'] if t['type'] == 2)
+    octets = kdf_ref.signed_octets(prf_id, view['res'], view['ni'], k['sk_pr'], id_type, ident)
+    auth_i = next(p for p in rq if p['t'] == W.AUTH)
+    auth = {'empty': (2, b''), 'random': (2, bytes(range(32))), 'pskempty': (2, kdf_ref.psk_auth(prf_id, b'', octets)),
+            'pskid': (2, kdf_ref.psk_auth(prf_id, ident, octets)), 'replay': (auth_i['method'], mitm.old_auth), 'rsagarbage': (1, b'\x17' * 256),
+            'copyi': (auth_i['method'], auth_i['data']), 'noauth': None,
+            # positive control of the harness only: the credential the attacker does not have
+            'control-with-the-real-psk': (2, kdf_ref.psk_auth(prf_id, str(w.conf['A']['A-B']['peer_auth'].get('psk', '')).encode(), octets))}[forge]
+    sa = dict(next(p for p in rq if p['t'] == W.SA))
+    prop = dict(sa['proposals'][0], spi=b'\xee\xee\xee\x01')
+    seen, keep = set(), []
+    for t in prop['transforms']:
+        if t['type'] not in seen:
+            seen.add(t['type'])
+            keep.append(t)
+    prop['transforms'] = keep
+    inner = [{'t': W.IDR, 'id_type': id_type, 'data': ident}]
+    if auth is not None:
+        inner.append({'t': W.AUTH, 'method': auth[0], 'data': auth[1]})
+    inner += [dict(sa, proposals=[prop])] + [dict(p) for p in rq if p['t'] in (W.TSI, W.TSR) or (p['t'] == W.NOTIFY and p['ntype'] == 16391)]
+    hdr = {'spi_i': view['spii'], 'spi_r': view['spir'], 'xchg': 35, 'response': True, 'initiator': False, 'mid': m['mid']}
+    return W.enc_message(hdr, [], sk={'ke': k['sk_er'], 'ka': k['sk_ar'], 'integ': integ, 'iv': b'\x67' * 16, 'inner': inner})
+
+
+def run_attack(actions, leaf, cred_i, cred_r, auth, seed, old_auth, r_variant=None):
     opts = {'ike_encr': ['aes256', 'aes128'], 'auth': auth}
     w = wd.World(opts=opts, seed=seed, start=False)
     if not cred_i:      # the responder's idea of the initiator's credential / identity is wrong
@@ -188,7 +220,7 @@ def run_attack(actions, leaf, cred_i, cred_r, auth, seed, old_auth):
         else:
             w.conf['B']['B-A']['peer_auth']['pubkey'] = wd.rsa_pems()['X']['pub']
     if not cred_r:
-        if seed % 2:
+        if (r_variant == 'id') if r_variant else seed % 2:
             w.conf['A']['A-B']['peer_auth']['id'] = 'somebody.else.example.org'
         elif auth == 'psk':
             w.conf['A']['A-B']['peer_auth']['psk'] = 'another-wrong-psk'
@@ -205,7 +237,12 @@ def run_attack(actions, leaf, cred_i, cred_r, auth, seed, old_auth):
             trace.append({k: v for k, v in a.items()})
             if cur is None:
                 break
-            if name == 'Msg1':
+            if name == 'ImpMsg2':
+                res = w.dispatch('B', mitm.msg1(cur, []), 'A')         # the real responder only serves as a template for the message format
+                cur = w.dispatch('A', mitm.msg2(bytes(res), ['nr', 'ker', 'spir'], 'keep'), 'B')
+            elif name == 'ImpMsg4':
+                cur = w.dispatch('A', forge_auth_response(mitm, w, bytes(cur), a['forge']), 'B')
+            elif name == 'Msg1':
                 cur = w.dispatch('B', mitm.msg1(cur, a['s']), 'A')
             elif name == 'Msg2':
                 cur = w.dispatch('A', mitm.msg2(bytes(cur), a['s'], a['chosen']), 'B')
@@ -248,6 +285,11 @@ def run(tier, replay=None):
     if 'ResponderAgreement' not in res.violated and 'Agreement' not in res.violated:
         raise common.MachineryError('Auth.tla: weakening AUTH (not covering the signer\'s IKE_SA_INIT message) does not produce the downgrade attack - the model is vacuous')
     old_auth = old_session_auth()
+    # vacuity control of the impersonation harness: the same forged response, keyed with the real shared secret, IS accepted
+    got, want, _ = run_attack([{'a': 'ImpMsg2'}, {'a': 'ImpMsg4', 'forge': 'control-with-the-real-psk'}], {'stI': 'DELETED', 'stR': 'NONE', 'installed': []}, True, True, 'psk',
+                              common.SEED, old_auth)
+    if not (got and got['stI'] and got['instI']):
+        raise common.MachineryError(f'impersonation harness: a response authenticated with the real credential is not accepted ({got}) - the forged ones prove nothing')
     outcomes = {}
     for cred_i, cred_r in ((True, True), (False, True), (True, False), (False, False)):
         res = tlc(cfg(cred_i=cred_i, cred_r=cred_r))
@@ -275,8 +317,10 @@ def run(tier, replay=None):
         for pi, p in enumerate(paths):
             actions = [g.edges[i][1] for i in p]
             leaf = g.states[g.edges[p[-1]][3]]
-            for auth in (('psk', 'rsa') if (tier == 'thorough' or pi % 7 == 0 or dh_mitm_single(p)) else ('psk',)):
-                got, want, trace = run_attack(actions, leaf, cred_i, cred_r, auth, common.SEED + pi, old_auth)
+            for auth in (('psk', 'rsa') if (tier == 'thorough' or pi % 7 == 0 or dh_mitm_single(p) or any(g.edges[i][1]['a'].startswith('Imp') for i in p)) else ('psk',)):
+              # what the initiator holds about the responder is wrong in one of two ways: another identity, or another secret / key for the right identity
+              for r_variant in ((None,) if cred_r else ('id', 'secret')):
+                got, want, trace = run_attack(actions, leaf, cred_i, cred_r, auth, common.SEED + pi, old_auth, r_variant=r_variant)
                 n += 1
                 key = (tuple(sorted(want.items())) if isinstance(want, dict) else want)
                 outcomes[str(want)] = outcomes.get(str(want), 0) + 1
